@@ -194,9 +194,12 @@ def documented (c : RawConfig) : Bool :=
 
 def ceil8 (n : Int) : Int := ((n + 7) / 8) * 8
 
-/-- PREF64 lifetime: 3·MaxRtrAdvInterval (whole seconds) rounded up to a multiple of 8 s,
-    capped at 65528 s -/
-def pref64Lifetime (maxI : Dur) : Dur := min (65528 * second) (ceil8 (3 * (maxI / second)) * second)
+/-- round a duration up to a multiple of 8 s -/
+def ceil8s (d : Dur) : Dur := ((d + (8 * second - 1)) / (8 * second)) * (8 * second)
+
+/-- PREF64 lifetime: 3·MaxRtrAdvInterval rounded up to a multiple of 8 s, capped at 65528 s
+    (RFC 8781 §4.1; for a whole-second `max_interval`: `ceil8 (3·seconds)` seconds) -/
+def pref64Lifetime (maxI : Dur) : Dur := min (65528 * second) (ceil8s (3 * maxI))
 
 def expPrefix (p : RawPrefix) : Plugin :=
   let q := (pfxOf wildPrefix p.pstr).getD wildPrefix
